@@ -13,6 +13,7 @@
 import logging
 import operator
 from multiprocessing import Process, Queue
+from queue import Empty
 from typing import Any, Callable, Dict, Iterator, List, Optional
 
 from numpy.typing import NDArray
@@ -51,6 +52,8 @@ from nucs.solvers.solver import Solver
 
 logger = logging.getLogger(__name__)
 
+POLLING_PERIOD = 0.5  # in seconds, the period used for checking that the processes are still alive
+
 
 class MultiprocessingSolver(Solver):
     """
@@ -88,13 +91,19 @@ class MultiprocessingSolver(Solver):
 
     def solve(self) -> Iterator[NDArray]:
         solutions: Queue = Queue()
-        for proc_idx, solver in enumerate(self.solvers):
-            Process(target=solver.solve_and_queue, args=(proc_idx, solutions)).start()
+        processes = [
+            Process(target=solver.solve_and_queue, args=(proc_idx, solutions))
+            for proc_idx, solver in enumerate(self.solvers)
+        ]
+        for process in processes:
+            process.start()
+        completed = [False] * len(self.solvers)
         nb = len(self.solvers)
         while nb > 0:
-            proc_idx, solution, statistics = solutions.get()
+            proc_idx, solution, statistics = get_message(solutions, processes, completed)
             self.statistics[proc_idx] = statistics
             if solution is None:
+                completed[proc_idx] = True
                 nb -= 1
             else:
                 yield solution
@@ -107,18 +116,44 @@ class MultiprocessingSolver(Solver):
 
     def optimize(self, variable_idx: int, proc_func_name: str, comparison_func: Callable) -> Optional[NDArray]:
         solutions: Queue = Queue()
-        for proc_idx, solver in enumerate(self.solvers):
-            Process(target=(getattr(solver, proc_func_name)), args=(variable_idx, proc_idx, solutions)).start()
+        processes = [
+            Process(target=(getattr(solver, proc_func_name)), args=(variable_idx, proc_idx, solutions))
+            for proc_idx, solver in enumerate(self.solvers)
+        ]
+        for process in processes:
+            process.start()
+        completed = [False] * len(self.solvers)
         best_solution = None
         nb = len(self.solvers)
         while nb > 0:
-            proc_idx, solution, statistics = solutions.get()
+            proc_idx, solution, statistics = get_message(solutions, processes, completed)
             self.statistics[proc_idx] = statistics
             if solution is None:
+                completed[proc_idx] = True
                 nb -= 1
             elif best_solution is None or comparison_func(solution[variable_idx], best_solution[variable_idx]):
                 best_solution = solution
         return best_solution
+
+
+def get_message(solutions: Queue, processes: List[Process], completed: List[bool]) -> Any:
+    """
+    Gets the next message sent by the processes.
+    :param solutions: the queue of messages
+    :param processes: the processes
+    :param completed: for each process, true iff it has announced its completion
+    :return: a message
+    :raises RuntimeError: if a process has died before announcing its completion
+    """
+    while True:
+        try:
+            return solutions.get(timeout=POLLING_PERIOD)
+        except Empty:
+            if any(not process.is_alive() and not completed[idx] for idx, process in enumerate(processes)):
+                try:
+                    return solutions.get(timeout=POLLING_PERIOD)  # what a process sent before exiting comes first
+                except Empty:
+                    raise RuntimeError("A process died before completing its search")
 
 
 def sum_stats(stats: List[Any], index: int) -> int:
